@@ -410,6 +410,24 @@ def ring_lengths(r, facts, modes=True, floor=2, sq=True, cq=True):
                 ok = e is not None and any(x[0] == 'const' and str(x[2]).endswith(flag) for x in subexprs(e)) and any(fam.last_field(x) == 'flags' for x in subexprs(e))
                 r.inst('Shared.%s = %s' % (fld, e), n.where(loc))
                 r.require(ok, 'Shared::new/%s' % fld, 'Shared.%s is not derived from parameters.flags & %s' % (fld, flag), n.where(loc))
+                # .. the right way round: true exactly when the bit is set (recognised spellings only: `x & F != 0`, `x & F == F`,
+                # `!(x & F == 0)`; anything else gives no verdict here)
+                if ok:
+                    pe, flip = e, False
+                    while pe[0] == 'un' and pe[1] == 'Not':
+                        pe, flip = pe[2], not flip
+                    verdict = None
+                    if pe[0] == 'bin' and pe[1] in ('Eq', 'Ne') and any(y[0] == 'bin' and y[1] == 'BitAnd' for y in (pe[2], pe[3])):
+                        other = pe[3] if (pe[2][0] == 'bin' and pe[2][1] == 'BitAnd') else pe[2]
+                        while other[0] == 'cast':
+                            other = other[4]
+                        if other[0] == 'const' and other[1] == 0:
+                            verdict = (pe[1] == 'Ne') != flip
+                        elif other[0] == 'const' and str(other[2]).endswith(flag):
+                            verdict = (pe[1] == 'Eq') != flip
+                    if verdict is not None:
+                        r.inst('Shared.%s is true exactly when %s is set: %s' % (fld, flag, verdict), n.where(loc))
+                        r.require(verdict, 'Shared::new/%s-polarity' % fld, 'Shared.%s is true when %s is *not* set in the flags the kernel echoed: %s' % (fld, flag, 'submissions are never handed to io_uring_enter / the poll thread is assumed' if fld == 'kernel_thread' else 'wake-ups from other threads take the single-issuer path (or the reverse)'), n.where(loc))
             if not sq:
                 continue
             e = fm.get('submissions_len')
